@@ -289,6 +289,16 @@ int main(int argc, char **argv) {
       uint64_t re = strtoull(tok[3], NULL, 16); memcpy(v, &re, T[ti].w);
       int r = gd_put_constant(D, tok[1], T[ti].t, v);
       printf("putconst %d e=%d", r, gd_error(D)); tail();
+    } else if (!strcmp(op, "getcarray") && nt >= 3) {
+      /* getcarray <code> <type> : whole CONST/CARRAY as <type> */
+      int ti = tfind(tok[2]);
+      size_t len = gd_array_len(D, tok[1]);
+      size_t esz = T[ti].w * (T[ti].cplx ? 2 : 1);
+      unsigned char *buf = malloc(len * esz ? len * esz : 1);
+      int r = gd_get_carray(D, tok[1], T[ti].t, buf);
+      printf("getcarray %d e=%d d=", r, gd_error(D));
+      if (r == 0) for (size_t i = 0; i < len; i++) { if (i) putchar(','); show_elem(ti, buf + i * esz); }
+      free(buf); tail();
     } else if (!strcmp(op, "rl")) {
       printf("rl"); tail();
     } else if (!strcmp(op, "validate") && nt >= 2) {
